@@ -361,11 +361,16 @@ def llvm_case(cli, sc, idx, case):
     runs = {}
     for n in case["threads"]:
         tools = os.path.join(d, "tools%d" % n)
-        tg.install_stubs(tools, canned, merge_fails=case["merge_fails"])
+        tg.install_stubs(tools, canned, merge_fails=case["merge_fails"], merge_warns=case.get("merge_warns", False),
+                         warn_ids=case.get("warn_ids", []))
         p = sh([cli] + args + ["--binary-path", bp, "--llvm-path", tools, "-t", "lcov", "--threads", str(n), "--no-demangle"]
                + (["--branch"] if case["branch"] else []), ind, env={"TMPDIR": os.path.join(d, "tmp")})
         merges, exports = tg.read_log(tools)
-        r = {"exit": p.returncode, "merges": merges, "exports": exports, "stderr": p.stderr.decode(errors="replace")[-600:]}
+        r = {"exit": p.returncode, "merges": merges, "exports": exports, "stderr": p.stderr.decode(errors="replace")[-600:],
+             "tmp_leftover": sorted(os.listdir(os.path.join(d, "tmp")))}
+        for fn in r["tmp_leftover"]:
+            pth = os.path.join(d, "tmp", fn)
+            shutil.rmtree(pth, ignore_errors=True) if os.path.isdir(pth) else os.remove(pth)
         if p.returncode == 0:
             r["report"], r["dup"] = tg.read_lcov(p.stdout.decode(errors="replace"))
         runs[n] = r
@@ -383,7 +388,10 @@ def gen_llvm_case(rng, tier):
             garbage[e["id"]] = rng.choice(tg.GARBAGE)
     return {"inputs": tg.gen_layout(rng, force_kind=rng.choice([None, None, "profraw", "profdata"])), "bins": bins, "canned": canned, "garbage": garbage,
             "branch": rng.random() < 0.6, "threads": [1, 2, 4] if rng.random() < 0.34 else [rng.choice([1, 2, 4])],
-            "abs_args": [rng.random() < 0.5 for _ in range(3)], "merge_fails": rng.random() < 0.04}
+            "abs_args": [rng.random() < 0.5 for _ in range(3)], "merge_fails": rng.random() < 0.05,
+            # tools that exit 0 AND print a diagnostic on stderr: still successful
+            "merge_warns": rng.random() < 0.3,
+            "warn_ids": [e["id"] for e in bins["ents"] if e["outcome"] in ("ok", "garbage") and rng.random() < 0.35]}
 
 
 def obs_form(rep):
@@ -472,14 +480,17 @@ def llvm_stream(chk, cli, ncases):
                               {"kind": "plain", "name": "plain.profraw", "files": [["plain.profraw", "P4"]], "noise": []}], threads=[1, 2])
     coll2 = dict(same, inputs=[{"kind": "dir", "name": "dir1", "files": [["x/y.profdata", "P1"], ["x_y.profdata", "P2"], ["run/1.profraw", "P3"], ["run_1.profraw", "P4"]], "noise": []}],
                  threads=[2])
-    cases = [wit, same, coll, coll2] + cases
+    # successful exports / merge that print warnings on stderr, next to an export that really fails; and a failing merge
+    warn = dict(same, warn_ids=["B0", "B3", "B4"], merge_warns=True, threads=[1, 2])
+    mfail = dict(same, merge_fails=True, threads=[1, 2])
+    cases = [wit, same, coll, coll2, warn, mfail] + cases
     with concurrent.futures.ThreadPoolExecutor(max_workers=6) as ex:
         outs = list(ex.map(lambda t: llvm_case(cli, sc, t[0], t[1]), enumerate(cases)))
     known = {e["key"]: e for e in vlib.known_findings(chk.pid) if e.get("status") == "known"}
     dist = {"cases": len(cases), "grcov_runs": 0, "profiles": 0, "inputs_dir": 0, "inputs_zip": 0, "inputs_plain": 0, "both_kinds": 0,
             "same_name_in_several_archives": 0, "archives_with_slash_underscore_colliding_names": 0, "binaries": 0, "executables": 0, "failing_exports": 0, "garbage_exports": 0,
             "non_executables": 0, "hidden_or_ignored_executables": 0, "extra_exports_of_non_executables": 0, "single_file_binary_path": 0,
-            "merge_failure_cases": 0, "reports_with_shared_files": 0, "cases_with_same_named_executables": 0, "class_executables_not_exported": 0, "class_executables_exported": 0}
+            "merge_failure_cases": 0, "merges_with_stderr_warning": 0, "successful_exports_with_stderr_warning": 0, "reports_with_shared_files": 0, "cases_with_same_named_executables": 0, "class_executables_not_exported": 0, "class_executables_exported": 0}
     exprs, ecases = [], []
     for case, runs in zip(cases, outs):
         exp = tg.expected_profiles(case["inputs"])
@@ -511,6 +522,8 @@ def llvm_stream(chk, cli, ncases):
             by_id = {e["id"]: e for e in case["bins"]["ents"]}
             if r["exit"] != 0:
                 viol = ("exit", "grcov exit status %d: %s" % (r["exit"], r["stderr"]))
+            if viol is None and r["tmp_leftover"]:
+                viol = ("tmpdir-clean", "left in TMPDIR after the run: %s" % r["tmp_leftover"])
             # clause 1: every discovered profile handed to the merge tool exactly once
             if viol is None:
                 got = sorted(sorted(m["ids"]) for m in r["merges"])
@@ -554,6 +567,8 @@ def llvm_stream(chk, cli, ncases):
             if viol is None:
                 per_file = {}
                 nfail = ngarb = 0
+                dist["merges_with_stderr_warning"] += sum(m.get("warned", False) for m in r["merges"])
+                dist["successful_exports_with_stderr_warning"] += sum(x["rc"] == 0 and x.get("warned", False) for x in r["exports"])
                 for x in r["exports"]:
                     e = by_id.get(x["id"])
                     if x["rc"] != 0:
@@ -644,7 +659,7 @@ def run(chk):
                        "gcov -b -c text account (cross-checked with gcov --json-format) vs grcov -t lcov [--branch] --threads 1,2,3,4,8; several translation units per program, some with an extra dot in the file name, a header with executable code in an include directory given as an absolute -I path and units compiled through their absolute path (sources matched by the name gcov itself reports), files that own executable lines but no function (statement fragment #included inside a body, X-macro .def table expanded inside a function, header contributing only a statement macro), some stale (recompiled after the run: gcov fails on them and they must contribute nothing); glue model fed with "
                        "what `gcov <gcno> -i` leaves in a worker directory.  (LLVM) recording llvm-profdata/llvm-cov stand-ins under --llvm-path; "
                        "layouts over directories, zips, plain arguments (same relative names in several archives, names differing only by '/' vs '_', _1 suffixes, unique bytes per profile and sha1 of every merge input logged by the stand-in, noise files, both profile kinds); "
-                       "binary trees with ELF files with/without exec bit, distinct executables sharing a file name in different directories, scripts, text, empty and 1-byte files, failing and unparsable exports, dot-directories, "
+                       "binary trees with ELF files with/without exec bit, distinct executables sharing a file name in different directories, scripts, text, empty and 1-byte files, failing and unparsable exports, exports and merges that exit 0 but print warnings on stderr, nothing left in TMPDIR (also after a failing merge), dot-directories, "
                        ".ignore rules, single-file binary path, merge failure; non-trivial = distinct case whose run exported at least one binary / distinct program")
     chk.cov["trusted_base"] = ["Coq kernel; vm_compute for the correspondence", "gcc 12 / gcov 12 themselves (the account IS gcov's output)",
                                "the driver's readers of gcov text, gcov JSON and grcov's lcov report", "the stub tools and their logs",
